@@ -23,19 +23,8 @@ Ltac q_evcalls fuel := idtac; first [ c8 | lazymatch goal with
   | |- wp _ (run fuel _) _ _ _ => q_docall (q_run fuel)
   | |- wp _ (api_stop _) _ _ _ => q_docall (q_api_stop _ (q_run fuel))
   | |- wp _ api_commit _ _ _ => q_docall q_api_commit
+  | |- wp _ (api_shutdown _) _ _ _ => q_docall (q_api_shutdown _ (q_run fuel))
   | |- wp _ (handle_commit_error _ _ _ _) _ _ _ => q_docall (q_handle_commit_error _ (q_run fuel)) end ].
-
-Lemma neutral_gouts g l : forallb req_neutral l = true -> gouts req_out g l = Some g.
-Proof.
-  induction l as [|x l IH]; cbn [forallb gouts]; [reflexivity|]. intro H. apply andb_prop in H. destruct H as [H1 H2].
-  destruct x; try discriminate H1; cbn [req_out]; auto.
-Qed.
-
-Ltac q_flush :=
-  lazymatch goal with
-  | |- wp _ (fun s' : state => (Ok tt, s', ?l)) _ ?g _ =>
-    apply wp_emits; exists g; split; [ apply neutral_gouts; solve [qsolve] | cbn beta iota ]
-  end.
 
 Lemma q_handle fuel e s : kind_ok s = true -> wq (handle fuel e) QI (req_ev (req_abs s) e) s.
 Proof.
